@@ -39,6 +39,14 @@ class Unsupported(Exception):
     pass
 
 
+class NeedFork(Exception):
+    """a call in expression position whose callee has several paths: the enclosing statement executes it first and re-evaluates"""
+
+    def __init__(self, node, fr):
+        super().__init__(ast.unparse(node))
+        self.node, self.fr = node, fr
+
+
 def consistent_intervals(guards):
     """integer-interval consistency of literals `term <op> const` over the same term (len terms are >= 0)"""
     dom = {}
@@ -161,6 +169,10 @@ class Engine:
             v = self.ev(e.value, p, fr)
             self.havoc_fields(p)
             return ("await", v)
+        if isinstance(e, ast.NamedExpr) and isinstance(e.target, ast.Name):
+            v = self.ev(e.value, p, fr)
+            p.store[("l", fr["id"], e.target.id)] = v
+            return v
         if isinstance(e, (ast.GeneratorExp, ast.ListComp)) and len(e.generators) == 1 and not e.generators[0].ifs and isinstance(e.generators[0].target, ast.Name):
             it = self.ev(e.generators[0].iter, p, fr)
             elems = None
@@ -327,6 +339,71 @@ class Engine:
             return self.ev(body[0].value, p, nfr)
         return None
 
+    def fork_or_memo(self, e, callee, p, fr):
+        key = ("memo", id(e))
+        if key in p.store:
+            return p.store[key]
+        if fr["depth"] >= self.depth or isinstance(callee.node, ast.AsyncFunctionDef):
+            return ("call", callee.qual, tuple(self.ev(a, p, fr) for a in e.args), e.lineno)
+        raise NeedFork(e, fr)
+
+    def fork(self, nf, snap, cont):
+        """execute the call of `nf` at statement level on the pre-statement snapshot, then continue each result with the call's value memoised"""
+        out = []
+        key = ("memo", id(nf.node))
+        for q, r in self.exec_call(nf.node, snap, nf.fr):
+            if q.status != "run":
+                out.append(q)
+                continue
+            q.store[key] = r
+            res = cont(q)
+            for x in res:
+                x.store.pop(key, None)
+            out.extend(res)
+        return out
+
+    def cond(self, test, p, fr):
+        """(paths where test is true, paths where it is false) with Python's short-circuit order; calls inside are executed with all their paths"""
+        if isinstance(test, ast.BoolOp) and self.split_bool:
+            is_and = isinstance(test.op, ast.And)
+            go, done = [p], []
+            for v in test.values:
+                nxt = []
+                for q in go:
+                    if q.status != "run":
+                        done.append(q)
+                        continue
+                    t, f = self.cond(v, q, fr)
+                    if is_and:
+                        nxt += t
+                        done += f
+                    else:
+                        nxt += f
+                        done += t
+                go = nxt
+            return (go, done) if is_and else (done, go)
+        if isinstance(test, ast.UnaryOp) and isinstance(test.op, ast.Not):
+            t, f = self.cond(test.operand, p, fr)
+            return f, t
+        snap = p.clone()
+        try:
+            sv = self.ev(test, p, fr)
+        except NeedFork as nf:
+            T, F = [], []
+            key = ("memo", id(nf.node))
+            for q, r in self.exec_call(nf.node, snap, nf.fr):
+                if q.status != "run":
+                    T.append(q)
+                    continue
+                q.store[key] = r
+                t, f = self.cond(test, q, fr)
+                for x in t + f:
+                    x.store.pop(key, None)
+                T += t
+                F += f
+            return T, F
+        return self.branch(sv, p, getattr(test, "lineno", 0))
+
     def frame(self, fn: Func, recv, args, parent):
         params = dict(zip(fn.params, args))
         return {"fn": fn, "self": recv, "params": params, "id": next(self.site), "depth": (parent["depth"] + 1 if parent else 0),
@@ -373,6 +450,7 @@ class Engine:
                 r = self.inline_pure(callee, None, args, p, fr)
                 if r is not None:
                     return r
+                return self.fork_or_memo(e, callee, p, fr)
         if isinstance(f, ast.Attribute):
             base = self.ev(f.value, p, fr)
             ck = self.sv_class(base, fr)
@@ -382,7 +460,13 @@ class Engine:
                     r = self.inline_pure(m, base if m.kind != "static" else None, args, p, fr)
                     if r is not None:
                         return r
+                if m and m.name not in self.no_inline and (self.inline_sub or base == ("self0",) or m.kind == "static"):
+                    return self.fork_or_memo(e, m, p, fr)
                 if m:
+                    if m.kind not in ("static", "property") and base != ("self0",):
+                        # method of a sub-object called inside an expression: same atomic effect as at statement level
+                        p.effects.append(("callm", base, m.qual, tuple(args), e.lineno))
+                        p.store[("ver", base)] = p.store.get(("ver", base), 0) + 1
                     return ("call", m.qual, (base,) + tuple(args), e.lineno)
             return ("call", "." + f.attr, (base,) + tuple(args), e.lineno)
         return ("call", ast.unparse(f), tuple(args), e.lineno)
@@ -461,6 +545,13 @@ class Engine:
         return rec(test_sv, p.clone(), True), rec(test_sv, p.clone(), False)
 
     def stmt(self, s, p: Path, fr):
+        snap = p.clone()
+        try:
+            return self._stmt(s, p, fr)
+        except NeedFork as nf:
+            return self.fork(nf, snap, lambda q: self.stmt(s, q, fr))
+
+    def _stmt(self, s, p: Path, fr):
         M = self.M
         if isinstance(s, ast.Expr):
             if isinstance(s.value, ast.Constant):
@@ -518,10 +609,15 @@ class Engine:
                 if isinstance(t, ast.Subscript):
                     base = self.ev(t.value, p, fr)
                     key = self.sv_key(t.value, p, fr)
-                    newv = ("mut", base, "__delitem__", (("opaque", ast.unparse(t.slice)),), s.lineno)
+                    if isinstance(t.slice, ast.Slice):
+                        meth = "__delslice__"
+                        dargs = (self.ev(t.slice.lower, p, fr) if t.slice.lower else None, self.ev(t.slice.upper, p, fr) if t.slice.upper else None)
+                    else:
+                        meth, dargs = "__delitem__", (self.ev(t.slice, p, fr),)
+                    newv = ("mut", base, meth, dargs, s.lineno)
                     if key:
                         p.store[key] = newv
-                    p.effects.append(("mutate", base, "__delitem__", (("opaque", ast.unparse(t.slice)),), s.lineno))
+                    p.effects.append(("mutate", base, meth, dargs, s.lineno))
                 elif isinstance(t, ast.Name):
                     p.store.pop(("l", fr["id"], t.id), None)
                 else:
@@ -534,13 +630,14 @@ class Engine:
             p.status = "continue"
             return [p]
         if isinstance(s, ast.Assert):
-            t, f = self.branch(self.ev(s.test, p, fr), p, s.lineno)
+            t, f = self.cond(s.test, p, fr)
             for q in f:
-                q.effects.append(("raise", "AssertionError", s.lineno))
-                q.status = "raise"
+                if q.status == "run":
+                    q.effects.append(("raise", "AssertionError", s.lineno))
+                    q.status = "raise"
             return t + f
         if isinstance(s, ast.If):
-            t, f = self.branch(self.ev(s.test, p, fr), p, s.lineno)
+            t, f = self.cond(s.test, p, fr)
             return self.block(s.body, t, fr) + self.block(s.orelse, f, fr)
         if isinstance(s, (ast.While, ast.For, ast.AsyncFor)):
             self.loops.append((fr["fn"], s, fr))
@@ -731,7 +828,7 @@ def loop_paths_at(E: Engine, fn: Func, node, path=None, fr=None):
     p.status = "run"
     starts = [p]
     if isinstance(node, ast.While):
-        t, f = E.branch(E.ev(node.test, p, fr), p, node.lineno)
+        t, f = E.cond(node.test, p, fr)
         starts = t
     else:
         it = E.ev(node.iter, p, fr)
@@ -751,9 +848,113 @@ def loop_body_paths(E: Engine, fn: Func, nth=0, pre=None):
         pre(p, fr)
     starts = [p]
     if isinstance(node, ast.While):
-        t, f = E.branch(E.ev(node.test, p, fr), p, node.lineno)
+        t, f = E.cond(node.test, p, fr)
         starts = t
     else:
         it = E.ev(node.iter, p, fr)
         E.assign(node.target, ("iter", it, node.lineno), p, fr, node.lineno)
     return node, E.block(node.body, starts, fr)
+
+
+def _iter_sentinel(node):
+    """for x in iter(callable, sentinel)  ->  (callable expr, sentinel expr)"""
+    it = node.iter
+    if isinstance(it, ast.Call) and isinstance(it.func, ast.Name) and it.func.id == "iter" and len(it.args) == 2 and not it.keywords:
+        return it.args[0], it.args[1]
+    return None
+
+
+def loop_iterations(E: Engine, fn: Func, pre=None):
+    """One iteration of the single top-level loop of fn, starting at the loop head with a fresh store.
+    Returns (loop node, continuing paths, leaving paths, frame): continuing paths are back at the loop head (status run);
+    leaving paths went through the loop exit (test false / iterator exhausted / break) and the statements after the loop, or
+    returned / raised inside the body (status return / raise).  `while` tests with calls or walrus targets and
+    `for x in iter(f, sentinel)` are normalised to the same form (the step obtains the value, then tests it)."""
+    body = fn.node.body
+    loops = [s for s in body if isinstance(s, (ast.While, ast.For))]
+    if len(loops) != 1:
+        return None
+    node = loops[0]
+    epilogue = body[body.index(node) + 1:]
+    fr = E.frame(fn, ("self0",), [], None)
+    fr["params"] = {a: ("p", a) for a in fn.params}
+    p = Path()
+    if pre:
+        pre(p, fr)
+    _seed_invariant_aliases(E, fn, node, body[:body.index(node)], p, fr)
+    exits = []
+    if isinstance(node, ast.While):
+        starts, exits = E.cond(node.test, p, fr)
+    else:
+        cs = _iter_sentinel(node)
+        if cs is not None:
+            call = ast.copy_location(ast.Call(func=cs[0], args=[], keywords=[]), node.iter)
+            ast.fix_missing_locations(call)
+            starts = []
+            for q, r in E.exec_call(call, p, fr):
+                if q.status != "run":
+                    exits.append(q)
+                    continue
+                E.assign(node.target, r, q, fr, node.lineno)
+                test = ast.copy_location(ast.Compare(left=ast.Name(id=node.target.id, ctx=ast.Load()), ops=[ast.Eq()], comparators=[cs[1]]), node.iter)
+                ast.fix_missing_locations(test)
+                t, f = E.cond(test, q, fr)
+                exits += t
+                starts += f
+        else:
+            it = E.ev(node.iter, p, fr)
+            ex = p.clone()
+            ex.guards.append((("exhausted", it), True, node.lineno))
+            exits = [ex]
+            E.assign(node.target, ("iter", it, node.lineno), p, fr, node.lineno)
+            starts = [p]
+    exits = E.block(node.orelse, exits, fr) if node.orelse else exits
+    out = E.block(node.body, [q for q in starts if q.status == "run"], fr) + [q for q in starts if q.status != "run"]
+    conts, leaving = [], []
+    for q in out:
+        if q.status == "break":
+            q.status = "run"
+            exits.append(q)
+        elif q.status in ("run", "continue"):
+            q.status = "run"
+            conts.append(q)
+        else:
+            leaving.append(q)
+    for q in E.block(epilogue, [x for x in exits if x.status == "run"], fr) + [x for x in exits if x.status != "run"]:
+        if q.status == "run":
+            q.status, q.ret = "return", ("c", None)
+        leaving.append(q)
+    return node, conts, leaving, fr
+
+
+def _seed_invariant_aliases(E, fn, loop, prologue, p, fr):
+    """locals bound before the loop to a field that is never rebound after construction (`buffer = self._buffer`) keep that
+    meaning in every iteration; everything else assigned before the loop is unknown at the loop head"""
+    in_loop = {n.id for n in ast.walk(loop) if isinstance(n, ast.Name) and isinstance(n.ctx, ast.Store)}
+    cls = E.M.classes.get((fn.mod, fn.cls)) if fn.cls else None
+    if cls is None or not prologue:
+        return
+    rebound = set()
+    for name, m in cls.methods.items():
+        if name == "__init__":
+            continue
+        for n in ast.walk(m.node):
+            if isinstance(n, ast.Attribute) and isinstance(n.ctx, (ast.Store, ast.Del)) and isinstance(n.value, ast.Name) and n.value.id == "self":
+                rebound.add(n.attr)
+    try:
+        pro = E.block(prologue, [Path()], fr)
+    except (Unsupported, NeedFork):
+        return
+    vals = {}
+    for q in pro:
+        if q.status != "run":
+            continue
+        for k, v in q.store.items():
+            if k[0] == "l" and k[1] == fr["id"]:
+                vals.setdefault(k, set()).add(v)
+    for k, vs in vals.items():
+        if k[2] in in_loop or len(vs) != 1:
+            continue
+        v = next(iter(vs))
+        if v[0] == "f0" and v[1] == ("self0",) and len(v) == 3 and v[2] not in rebound:
+            p.store[k] = v
